@@ -58,7 +58,7 @@ type lsheet struct {
 
 type wbopts struct {
 	reverseSST, abs, noStyles, noDim, swapParts, relIDs, deflate bool
-	padSST                                              int
+	padSST                                                       int
 }
 
 var errLits = []string{"#DIV/0!", "#N/A", "#REF!", "#VALUE!", "#NAME?", "#NUM!", "#NULL!"}
@@ -432,14 +432,14 @@ func run(e *harness.Env) {
 	e.Rule = "codec: every column 0..18277 (+AAAA, ZZZZ, AAAAA) x rows {1,2,9,10,99,100,1048576} through ParseCellRef/CellRef/ColumnToIndex/IndexToColumn/ParseRangeRef against an independent codec, plus fixed lists of malformed / non-canonical references. " +
 		"Workbooks, one harness case per (workbook, view), view in {grid,text,md,model}: " +
 		"(cells) every subset of <=3 of the 9 addresses {A1,B1,A2,C3,Z1,AA1,AB7,ZZ2,A200} x kind vectors over the 8 cell kinds x writing orders " +
-		"[thorough: all 8^k vectors x every distinct order among in/reversed/rows-reversed/cells-reversed/rotated; subsets spanning ZZ2+A200 (702x200 grid): all 8^k in order + 64 stride vectors reversed. " +
+		"[thorough: all 8^k vectors x every distinct order among in/reversed/rows-reversed/cells-reversed/rotated; subsets spanning ZZ2+A200 (702x200 grid): the 64 stride vectors x in/reversed. " +
 		"quick: all 8^k for k<=2, the 64 stride vectors (base+i*stride mod 8) for k=3, 8 rotations for ZZ2+A200 subsets; orders in/reversed]; " +
 		"(merge) every subset of <=3 addresses (incl. none) x merged ranges {A1:B2 | B1:C1 | A2:A3 | B1:C1+A2:A3} x value in the last covered cell y/n x rotating kind vectors (8 thorough, 4 quick) x in/reversed; " +
 		"(ws) a line break / tab inside a string value at every position of every subset of <=3 of 5 addresses x 5 string kinds x in/reversed; " +
 		"(sheets) two sheets: every pair of subsets of <=2 of 5 addresses (incl. empty) x rotating kinds (8 / 3) x 4 package layouts (standard, part numbers swapped against declared order, absolute targets, custom relationship ids); " +
 		"(sst) shared / rich shared strings with reversed, padded and reversed+padded string tables, one and two sheets; " +
 		"(variants) t=\"n\", formula-cached number/bool/error/text, no <dimension>, no styles part, deflated members, styled blank cells before/after/below the content. " +
-		"distinct = distinct descriptors; non-trivial = everything except the single plain shared-string cell A1"
+		"distinct = distinct descriptors; non-trivial = everything except a workbook whose only cell is A1 (any kind) and the single-letter columns of the codec"
 	e.Assumptions = []string{
 		"the writer verif/internal/gen/xlsxw emits valid SpreadsheetML (ECMA-376 part 1, 18.3/18.4) and its A1 codec (length-class construction) is correct; the codec's round trip and strict monotonicity over 0..18277 are re-verified at start-up",
 		"Markdown is read with a small GFM table splitter (unescaped pipes, delimiter row, excess cells ignored)",
@@ -498,8 +498,9 @@ func baseDesc(space string, sheets []lsheet, order string, o wbopts, extra ...st
 var allOrders = []string{"in", "rev", "rowsrev", "cellsrev", "rot"}
 
 // large: the subset spans ZZ2 and A200, i.e. a dense grid of 702 x 200 cells (about 35 ms per view
-// instead of 0.2 ms). The quick tier runs these with 8 rotating kind assignments instead of all 8^k,
-// and leaves them out of the secondary spaces; the thorough tier runs everything.
+// instead of 0.2 ms). The quick tier runs these with 8 rotating kind assignments instead of all 8^k
+// and leaves them out of the secondary spaces; the thorough tier runs them with the 64 stride vectors
+// (placement does not depend on the kind; the full kind product is run on all other subsets).
 func large(sub []int) bool {
 	zz, a200 := false, false
 	for _, i := range sub {
@@ -568,7 +569,7 @@ func cellsSpace(e *harness.Env, tmp string) {
 		case e.Thorough() && !large(sub):
 			plans = []plan{{"full", allOrders}}
 		case e.Thorough():
-			plans = []plan{{"full", []string{"in"}}, {"stride", []string{"rev"}}}
+			plans = []plan{{"stride", []string{"in", "rev"}}}
 		case large(sub):
 			plans = []plan{{"rot", []string{"in", "rev"}}}
 		case k == 3:
@@ -591,7 +592,7 @@ func cellsSpace(e *harness.Env, tmp string) {
 					}
 					seen[key] = true
 					sheets := []lsheet{{name: "S1", cells: oc}}
-					trivial := k == 1 && sub[0] == 0 && cells[0].kind == xlsxw.Shared
+					trivial := k == 1 && sub[0] == 0
 					runCase(e, tmp, caseSpec{desc: baseDesc("cells", sheets, ord, wbopts{}), sheets: sheets,
 						nontrivial: !trivial, outcome: fmt.Sprintf("cells%d", k)})
 				}
